@@ -14,7 +14,9 @@ MAXL = 6
 
 def _fp(c):
     """Cheap fingerprint of everything resolution reads from a citation."""
-    return (repr(c.metadata), tuple(c.groups.items()), getattr(getattr(c, "edition_guess", None), "short_name", None))
+    # every instance attribute except the (large, shared) token and edition tuples - also attributes the library might
+    # add to its objects later
+    return tuple(sorted((k, repr(v)) for k, v in vars(c).items() if k not in ("token", "exact_editions", "variation_editions", "all_editions")))
 
 
 def setup(tier):
